@@ -11,10 +11,14 @@
       rnd53, u53, eps53    - Flocq's round-to-nearest-even at precision 53 with unbounded exponents
                              (FLX), u53 = 2^-53, eps53 = 2^-52 = f64::EPSILON;
       FLX53_ops            - SM_ops rnd53: binary64 arithmetic without underflow / overflow.
+      InvC rnd m t         - the sphere invariant of every node of t AS COMPUTED in SM_ops rnd, metric m: the
+                             computed distance of every stored point from the node's centre is <= the
+                             stored radius (C07/FloatSearch.v; decided by the executable tree_inv).
     D = dist(q, centre), P = dist(p, centre), T = dist(q, p) are TRUE (real) distances of the points;
     dc, rr are the computed centre distance and the stored radius. *)
 From Coq Require Import List NArith ZArith QArith Reals Floats Lra.
-From LinfaVerif Require Import Common.Num Common.QF C07.Model C07.Proofs C07.FloatBound.
+From Coq Require Import Permutation.
+From LinfaVerif Require Import Common.Num Common.QF C07.Model C07.Proofs C07.FloatBound C07.FloatBuild C07.FloatSearch.
 Import ListNotations.
 Local Open Scope R_scope.
 
@@ -150,3 +154,151 @@ Theorem bt_bound_rel_margin_refuted_model :
     T < border_bound_rel (SM_ops (fun x => x)) (2 * u) 1 dc rr /\
     border_bound (SM_ops (fun x => x)) (2 * u) 1 dc rr <= T.
 Proof. exact border_rel_std_refuted. Qed.
+
+(** * Computed against computed, and the whole search in rounded arithmetic (L1, L2, Linf) *)
+
+(** The number the search actually compares: the reduced bound of a node, computed in the rounded
+    arithmetic, never exceeds the reduced distance from the query to a point stored below the node AS
+    COMPUTED IN THE SAME ARITHMETIC (both sides carry their rounding errors; the margin of the
+    repaired code covers the sum of them) - for each of the metrics L1, L2, Linf and every dimension
+    1 <= dim with (dim+4)u <= 1/16. *)
+Theorem bt_node_bound_float_computed_sound :
+  forall (rnd : R -> R) (u : R), 0 <= u -> (forall x, Rabs (rnd x - x) <= u * Rabs x) ->
+  (forall x, rnd (rnd x) = rnd x) ->
+  forall (m : metric) (q : list R) (t : btree R) (p : list R * N),
+  let dim := length (center t) in
+  (1 <= dim)%nat -> (INR dim + 4) * u <= 1 / 16 ->
+  (forall p', In p' (tree_points t) -> dist (SM_ops rnd) m (fst p') (center t) <= radius t) ->
+  In p (tree_points t) -> length q = dim -> length (fst p) = dim ->
+  node_bound (SM_ops rnd) (2 * u) m q t <= rdist (SM_ops rnd) m q (fst p).
+Proof. exact node_bound_computed. Qed.
+
+(** The executable checker that the correspondence evaluates on the dump of the implementation's
+    tree decides the computed invariant. *)
+Theorem tree_inv_decides_computed_invariant :
+  forall (rnd : R -> R) (m : metric) (t : btree R), tree_inv (SM_ops rnd) m t = true -> InvC rnd m t.
+Proof. exact tree_inv_InvC. Qed.
+
+(** Hence the model's best-first search (nn_helper with its pruning and early exit), run in any
+    arithmetic of the standard rounding model on any tree that satisfies the computed invariant and
+    stores the rows of the batch, answers every k-nearest and every range query correctly with
+    respect to the reduced distances computed in that arithmetic - i.e. by the criterion of the
+    linear scan run in the same arithmetic. *)
+Theorem bt_search_float_correct :
+  forall (rnd : R -> R) (u : R), 0 <= u -> (forall x, Rabs (rnd x - x) <= u * Rabs x) ->
+  (forall x, rnd (rnd x) = rnd x) ->
+  forall (m : metric) (dim : nat) (q : list R) (X : list (list R)) (t : btree R) (k : nat) (r : R),
+  (1 <= dim)%nat -> (INR dim + 4) * u <= 1 / 16 -> length q = dim ->
+  InvC rnd m t -> dim_ok dim t -> Permutation (tree_points t) (enumerate X) ->
+  is_knn (dq_of (SM_ops rnd) m q) k X (bt_knn (SM_ops rnd) (2 * u) m t (length X) q k) /\
+  is_range (dq_of (SM_ops rnd) m q) (to_r (SM_ops rnd) m r) X (bt_range (SM_ops rnd) (2 * u) m t (length X) q r).
+Proof.
+  intros rnd u Hu Hr Hi m dim q X t k r Hd Hs Hq HI HD HP. split.
+  - apply (bt_knn_float rnd u Hu Hr Hi m dim q Hd Hs Hq X t (conj HI HD) HP).
+  - apply (bt_range_float rnd u Hu Hr Hi m dim q Hd Hs Hq X t (conj HI HD) HP).
+Qed.
+
+(** Interchangeability in rounded arithmetic: linear scan and ball tree, both run in the rounded
+    arithmetic, return the same computed distances (k nearest) and the same rows (range). *)
+Theorem linear_and_ball_tree_agree_float :
+  forall (rnd : R -> R) (u : R), 0 <= u -> (forall x, Rabs (rnd x - x) <= u * Rabs x) ->
+  (forall x, rnd (rnd x) = rnd x) ->
+  forall (m : metric) (dim : nat) (q : list R) (X : list (list R)) (t : btree R) (k : nat) (r : R),
+  (1 <= dim)%nat -> (INR dim + 4) * u <= 1 / 16 -> length q = dim ->
+  InvC rnd m t -> dim_ok dim t -> Permutation (tree_points t) (enumerate X) ->
+  map (dq_of (SM_ops rnd) m q) (linear_knn (SM_ops rnd) m q k X)
+    = map (dq_of (SM_ops rnd) m q) (bt_knn (SM_ops rnd) (2 * u) m t (length X) q k) /\
+  (forall p, In p (linear_range (SM_ops rnd) m q r X) <-> In p (bt_range (SM_ops rnd) (2 * u) m t (length X) q r)).
+Proof.
+  intros rnd u Hu Hr Hi m dim q X t k r Hd Hs Hq HI HD HP.
+  apply (FloatSearch.linear_and_ball_tree_agree_float rnd u Hu Hr Hi m dim q Hd Hs Hq X t (conj HI HD) HP).
+Qed.
+
+(** ... in particular in binary64 arithmetic without underflow / overflow (Flocq FLX, precision 53,
+    eps53 = 2^-52 = f64::EPSILON), for every dimension from 1 to 2^49 - 4. *)
+Theorem linear_and_ball_tree_agree_flx53 :
+  forall (m : metric) (dim : nat) (q : list R) (X : list (list R)) (t : btree R) (k : nat) (r : R),
+  (1 <= dim)%nat -> (Z.of_nat dim + 4 <= 562949953421312)%Z -> length q = dim ->
+  InvC rnd53 m t -> dim_ok dim t -> Permutation (tree_points t) (enumerate X) ->
+  map (dq_of FLX53_ops m q) (linear_knn FLX53_ops m q k X)
+    = map (dq_of FLX53_ops m q) (bt_knn FLX53_ops eps53 m t (length X) q k) /\
+  (forall p, In p (linear_range FLX53_ops m q r X) <-> In p (bt_range FLX53_ops eps53 m t (length X) q r)).
+Proof.
+  intros m dim q X t k r Hd Hs Hq HI HD HP.
+  apply (linear_and_ball_tree_agree_float rnd53 u53 u53_pos rnd53_rel rnd53_idem m dim q X t k r Hd (dim_small_53 dim Hs) Hq HI HD HP).
+Qed.
+
+(** * End to end in rounded arithmetic *)
+
+(** The construction (partition by order_stat's selection, leaf means, calc_radius), run in the rounded
+    arithmetic with a rounding that is also monotone, yields a tree that satisfies the computed
+    invariant, has consistent dimensions and stores the rows of the batch ... *)
+Theorem bt_build_float_inv :
+  forall (rnd : R -> R), (forall x y, x <= y -> rnd x <= rnd y) ->
+  forall (m : metric) (leaf dim : nat) (X : list (list R)),
+  (1 <= leaf)%nat -> (forall x, In x X -> length x = dim) ->
+  InvC rnd m (bt_new (SM_ops rnd) m leaf X) /\ dim_ok dim (bt_new (SM_ops rnd) m leaf X) /\
+  Permutation (tree_points (bt_new (SM_ops rnd) m leaf X)) (enumerate X).
+Proof.
+  intros rnd Hm m leaf dim X Hl HX.
+  destruct (FloatBuild.bt_new_wf_o (SM_ops rnd) eq_refl (SM_sqrt_mono rnd Hm) m leaf dim X Hl HX) as [H1 [H2 H3]].
+  split; [apply InvO_InvC; exact H1 | split; assumption].
+Qed.
+
+(** ... so that, for every batch of points of one dimension 1 <= dim with (dim+4)u <= 1/16, every leaf
+    size >= 1, metric L1 / L2 / Linf, query, k and radius: the ball tree of the model - built and
+    searched in the rounded arithmetic - answers correctly with respect to the computed distances, and
+    returns the same computed distances (k nearest) and the same rows (range) as the linear scan run
+    in the same arithmetic. *)
+Theorem ball_tree_float_end_to_end :
+  forall (rnd : R -> R) (u : R), 0 <= u -> (forall x, Rabs (rnd x - x) <= u * Rabs x) ->
+  (forall x, rnd (rnd x) = rnd x) -> (forall x y, x <= y -> rnd x <= rnd y) ->
+  forall (m : metric) (leaf dim : nat) (X : list (list R)) (q : list R) (k : nat) (r : R),
+  (1 <= leaf)%nat -> (1 <= dim)%nat -> (INR dim + 4) * u <= 1 / 16 ->
+  (forall x, In x X -> length x = dim) -> length q = dim ->
+  let o := SM_ops rnd in let t := bt_new o m leaf X in
+  is_knn (dq_of o m q) k X (bt_knn o (2 * u) m t (length X) q k) /\
+  is_range (dq_of o m q) (to_r o m r) X (bt_range o (2 * u) m t (length X) q r) /\
+  map (dq_of o m q) (linear_knn o m q k X) = map (dq_of o m q) (bt_knn o (2 * u) m t (length X) q k) /\
+  (forall p, In p (linear_range o m q r X) <-> In p (bt_range o (2 * u) m t (length X) q r)).
+Proof.
+  intros rnd u Hu Hr Hi Hm m leaf dim X q k r Hl Hd Hs HX Hq o t.
+  destruct (ball_tree_float_correct rnd u Hu Hr Hi Hm m leaf dim X q Hl Hd Hs HX Hq k r) as [A B].
+  destruct (linear_and_ball_tree_agree_float_e2e rnd u Hu Hr Hi Hm m leaf dim X q Hl Hd Hs HX Hq k r) as [C D].
+  exact (conj A (conj B (conj C D))).
+Qed.
+
+(** Flocq's precision-53 round-to-nearest-even is monotone as well: the statement above holds in
+    binary64 arithmetic without underflow / overflow for every dimension from 1 to 2^49 - 4. *)
+Theorem ball_tree_flx53_end_to_end :
+  forall (m : metric) (leaf dim : nat) (X : list (list R)) (q : list R) (k : nat) (r : R),
+  (1 <= leaf)%nat -> (1 <= dim)%nat -> (Z.of_nat dim + 4 <= 562949953421312)%Z ->
+  (forall x, In x X -> length x = dim) -> length q = dim ->
+  let t := bt_new FLX53_ops m leaf X in
+  is_knn (dq_of FLX53_ops m q) k X (bt_knn FLX53_ops eps53 m t (length X) q k) /\
+  is_range (dq_of FLX53_ops m q) (to_r FLX53_ops m r) X (bt_range FLX53_ops eps53 m t (length X) q r) /\
+  map (dq_of FLX53_ops m q) (linear_knn FLX53_ops m q k X) = map (dq_of FLX53_ops m q) (bt_knn FLX53_ops eps53 m t (length X) q k) /\
+  (forall p, In p (linear_range FLX53_ops m q r X) <-> In p (bt_range FLX53_ops eps53 m t (length X) q r)).
+Proof.
+  intros m leaf dim X q k r Hl Hd Hs HX Hq.
+  exact (ball_tree_float_end_to_end rnd53 u53 u53_pos rnd53_rel rnd53_idem rnd53_mono m leaf dim X q k r Hl Hd (dim_small_53 dim Hs) HX Hq).
+Qed.
+
+(** * Outside the rounding model: underflow (finding F-C07-1) *)
+
+(** The standard model has no underflow.  In binary64 itself the model of the ball tree (which the
+    correspondence ties to the implementation bit for bit) loses a point when squared differences
+    fall below the normal range: a batch, leaf size, query and radius, evaluated with Coq's primitive
+    floats, for which the tree satisfies the computed sphere invariant, the linear scan returns row 1
+    (accepted by the judge range_ok), and the ball tree returns nothing (rejected by the judge).
+    [linear_and_ball_tree_agree_flx53] is the counterpart outside this regime. *)
+Theorem bt_range_underflow_refuted :
+  exists (X : list (list PrimFloat.float)) (leaf : nat) (q : list PrimFloat.float) (r : PrimFloat.float),
+    let o := B64_ops in let eps := 0x1p-52%float in
+    let t := bt_new o L2 leaf X in
+    tree_inv o L2 t = true /\
+    map snd (linear_range o L2 q r X) = [1%N] /\
+    map snd (bt_range o eps L2 t (length X) q r) = [] /\
+    range_ok o f64_biteq (dq_of o L2 q) (to_r o L2 r) X (bt_range o eps L2 t (length X) q r) = false /\
+    range_ok o f64_biteq (dq_of o L2 q) (to_r o L2 r) X (linear_range o L2 q r X) = true.
+Proof. exists uw_X, 2%nat, uw_q, uw_r. exact underflow_witness. Qed.
